@@ -28,7 +28,15 @@ static struct qs c02_empty_blk = { { {{{{ (uint32_t)-1 }}}}, 0, 0, QS_OFF }, 0, 
        SSA step, SAT conversion out of memory). Sound because model blocks are never recycled (QArrayData::deallocate is a no-op); the only
        effect of a too-small count would be an in-place QString::resize()/reallocData() by code that still shares the block with the tree. */
 #define qad_ref(d) (d)
-static QAD *c02_blk(QAD *d) { if (d->f3 == QS_OFF) return d; if (d->f1 == 0) return C02_EMPTY; QAD *c = qs_from(qs_chars(d), d->f1); REF(c) = (uint32_t)-1; return c; }
+#ifndef C02_COPYCAP
+#define C02_COPYCAP 40
+#endif
+/* bounded copy of literal data into a fresh immortal block with content id. `p` may be an if-then-else over several literals (a QString returned
+   by a switch over a symbolic enum value): the copy turns that into ONE block with symbolic content */
+static QAD *c02_copy16(const uint16_t *p, uint32_t n, uint8_t lit) { ASSERT(n <= C02_COPYCAP, "C02 dom: literal longer than C02_COPYCAP"); QAD *c = qs_new(n, C02_COPYCAP); struct qs *q = (struct qs*)c; REF(c) = (uint32_t)-1;
+  for (uint32_t i = 0; i < C02_COPYCAP; i++) { if (i >= n) break; q->data[i] = p[i]; }
+  q->lit = lit; q->exact = lit; q->sid = n <= 3 ? SID_PACK(q->data, n) : vpl_hash16(q->data, n); if (n <= 3) q->exact = 1; return c; }
+static QAD *c02_blk(QAD *d) { if (d->f3 == QS_OFF) return d; if (d->f1 == 0) return C02_EMPTY; return c02_copy16(qs_chars(d), d->f1, 1 /* static QStringData: literal by construction */); }
 static QAD *c02_nz(QAD *d) { return d->f1 == 0 && d == SHARED_NULL ? C02_EMPTY : d; }
 struct dnode { QAD *tag, *ns, *text; uint32_t nattr; uint8_t has[DOM_MAXATTR]; QAD *av[DOM_MAXATTR]; uint32_t nch; struct dnode *ch[DOM_MAXCH]; struct dnode *parent; uint32_t idx; uint32_t ntext; };
 /* (2) unused child slots point to a static sentinel node (not uninitialised / null): reading slot i of a node whose child COUNT is symbolic then
@@ -56,29 +64,30 @@ uint8_t _ZNK8QDomNode6isTextEv(char *self) { return 0; }
 void _ZNK8QDomNode9toElementEv(char *ret, char *self) { DN(ret) = DN(self); }
 uint8_t _ZNK8QDomNodeeqERKS_(char *a, char *b) { return DN(a) == DN(b); }
 uint8_t _ZNK8QDomNodeneERKS_(char *a, char *b) { return DN(a) != DN(b); }
-void _ZNK11QDomElement7tagNameEv(char *ret, char *el) { struct dnode *n = DN(el); *(QAD**)ret = n ? qad_ref(n->tag) : C02_EMPTY; }
-void _ZNK8QDomNode8nodeNameEv(char *ret, char *el) { struct dnode *n = DN(el); *(QAD**)ret = n ? qad_ref(n->tag) : C02_EMPTY; }
-void _ZNK8QDomNode9localNameEv(char *ret, char *el) { struct dnode *n = DN(el); *(QAD**)ret = n ? qad_ref(n->tag) : C02_EMPTY; }
-void _ZNK8QDomNode12namespaceURIEv(char *ret, char *el) { struct dnode *n = DN(el); *(QAD**)ret = n ? qad_ref(n->ns) : C02_EMPTY; }
-void _ZNK11QDomElement4textEv(char *ret, char *el) { struct dnode *n = DN(el); *(QAD**)ret = n ? qad_ref(n->text) : C02_EMPTY; }
+void _ZNK11QDomElement7tagNameEv(char *ret, char *el) { struct dnode *n = DN(el); if (!n) { *(QAD**)ret = C02_EMPTY; return; } *(QAD**)ret = n->tag; }
+void _ZNK8QDomNode8nodeNameEv(char *ret, char *el) { struct dnode *n = DN(el); if (!n) { *(QAD**)ret = C02_EMPTY; return; } *(QAD**)ret = n->tag; }
+void _ZNK8QDomNode9localNameEv(char *ret, char *el) { struct dnode *n = DN(el); if (!n) { *(QAD**)ret = C02_EMPTY; return; } *(QAD**)ret = n->tag; }
+void _ZNK8QDomNode12namespaceURIEv(char *ret, char *el) { struct dnode *n = DN(el); if (!n) { *(QAD**)ret = C02_EMPTY; return; } *(QAD**)ret = n->ns; }
+void _ZNK11QDomElement4textEv(char *ret, char *el) { struct dnode *n = DN(el); if (!n) { *(QAD**)ret = C02_EMPTY; return; } *(QAD**)ret = n->text; }
 /* slot = hash of the name's content with linear probing: path-independent unless two names collide */
 static QAD *attr_names[DOM_MAXATTR];
 static uint32_t attr_hash(QAD *s) { uint32_t n = s->f1; const uint16_t *c = qs_chars(s); uint32_t h = n * 7; if (n > 0) h += c[0] * 31 + c[n - 1] * 13; if (n > 1) h += c[1] * 17; if (n > 2) h += c[2] * 5; return h % DOM_MAXATTR; }
 static int vpl_attr_slot(QAD *name, int add) { uint32_t h = attr_hash(name);
   for (uint32_t k = 0; k < DOM_MAXATTR; k++) { uint32_t i = (h + k) % DOM_MAXATTR; if (!attr_names[i]) { if (!add) return -1; attr_names[i] = qad_ref(name); return (int)i; } if (d_eq(attr_names[i], name)) return (int)i; }
   ASSERT(0, "DOM model: too many distinct attribute names"); ASSUME(0); return -1; }
-static int dn_attr(struct dnode *n, QAD *name) { if (!n) return -1; int s = vpl_attr_slot(name, 0); if (s < 0 || !n->has[s]) return -1; return s; }
-void _ZNK11QDomElement9attributeERK7QStringS2_(char *ret, char *el, char *name, char *def) { struct dnode *n = DN(el); int i = dn_attr(n, *(QAD**)name);
-  *(QAD**)ret = i >= 0 ? qad_ref(n->av[i]) : qad_ref(c02_nz(*(QAD**)def)); }
+static int dn_attr(struct dnode *n, QAD *name) { if (!n) return -1; int s = vpl_attr_slot(name, 0); if (s < 0) return -1; if (!n->has[s]) return -1; return s; }
+void _ZNK11QDomElement9attributeERK7QStringS2_(char *ret, char *el, char *name, char *def) { struct dnode *n = DN(el); QAD *dflt = c02_nz(*(QAD**)def);
+  if (!n) { *(QAD**)ret = dflt; return; } int s = vpl_attr_slot(*(QAD**)name, 0); if (s < 0) { *(QAD**)ret = dflt; return; }
+  if (n->has[s]) { *(QAD**)ret = n->av[s]; return; } *(QAD**)ret = dflt; }
 uint8_t _ZNK11QDomElement12hasAttributeERK7QString(char *el, char *name) { return dn_attr(DN(el), *(QAD**)name) >= 0; }
 static struct dnode *dn_child_from(struct dnode *n, uint32_t from, QAD *tag) { if (!n) return 0;
   for (uint32_t i = 0; i < DOM_MAXCH; i++) { if (i >= n->nch) break; if (i >= from && (!tag || tag->f1 == 0 || d_eq(n->ch[i]->tag, tag))) return n->ch[i]; } return 0; }
 void _ZNK8QDomNode17firstChildElementERK7QString(char *ret, char *el, char *tag) { DN(ret) = dn_child_from(DN(el), 0, *(QAD**)tag); }
-void _ZNK8QDomNode18nextSiblingElementERK7QString(char *ret, char *el, char *tag) { struct dnode *n = DN(el); DN(ret) = n && n->parent ? dn_child_from(n->parent, n->idx + 1, *(QAD**)tag) : 0; }
+void _ZNK8QDomNode18nextSiblingElementERK7QString(char *ret, char *el, char *tag) { struct dnode *n = DN(el); if (!n) { DN(ret) = 0; return; } struct dnode *p = n->parent; if (!p) { DN(ret) = 0; return; } DN(ret) = dn_child_from(p, n->idx + 1, *(QAD**)tag); }
 void _ZNK8QDomNode10firstChildEv(char *ret, char *el) { DN(ret) = dn_child_from(DN(el), 0, 0); }
-void _ZNK8QDomNode11nextSiblingEv(char *ret, char *el) { struct dnode *n = DN(el); DN(ret) = n && n->parent ? dn_child_from(n->parent, n->idx + 1, 0) : 0; }
-void _ZNK8QDomNode10parentNodeEv(char *ret, char *el) { struct dnode *n = DN(el); DN(ret) = n ? n->parent : 0; }
-uint8_t _ZNK8QDomNode13hasChildNodesEv(char *el) { struct dnode *n = DN(el); return n && (n->nch > 0 || n->text->f1 > 0); }
+void _ZNK8QDomNode11nextSiblingEv(char *ret, char *el) { struct dnode *n = DN(el); if (!n) { DN(ret) = 0; return; } struct dnode *p = n->parent; if (!p) { DN(ret) = 0; return; } DN(ret) = dn_child_from(p, n->idx + 1, 0); }
+void _ZNK8QDomNode10parentNodeEv(char *ret, char *el) { struct dnode *n = DN(el); if (!n) { DN(ret) = 0; return; } DN(ret) = n->parent; }
+uint8_t _ZNK8QDomNode13hasChildNodesEv(char *el) { struct dnode *n = DN(el); if (!n) return 0; return n->nch > 0 || n->text->f1 > 0; }
 /* ---- tree building (writer and harness) ---- */
 static void dn_append(struct dnode *p, struct dnode *c) { ASSERT(p->nch < DOM_MAXCH, "DOM model: too many children"); c->parent = p; c->idx = p->nch; p->ch[p->nch++] = c; }
 static void dn_set_attr(struct dnode *n, QAD *name, QAD *val) { int s = vpl_attr_slot(name, 1); if (!n->has[s]) { n->has[s] = 1; n->nattr++; } n->av[s] = c02_blk(val); }
